@@ -409,7 +409,7 @@ class Engine:
 
     def const_bool(self, v):
         """Python-level truth if decidable without the solver, else None"""
-        if isinstance(v, (bool, int)) or v is None:
+        if isinstance(v, (bool, int, str, bytes)) or v is None:
             return bool(v)
         if z3.is_expr(v):
             s = z3.simplify(v)
@@ -544,6 +544,12 @@ class Engine:
 
     def ev_Constant(self, e, st, spec):
         return e.value
+
+    def ev_List(self, e, st, spec):
+        # a list literal: only the empty list, as an accumulator whose behaviour the contract defines
+        if not e.elts and getattr(self.c, "list_factory", None) is not None:
+            return self.c.list_factory()
+        raise Unsupported("list literal")
 
     def ev_Name(self, e, st, spec):
         if e.id in st.env:
@@ -1269,7 +1275,12 @@ class Engine:
         for pat, code, occ in c.hooks:
             hits = len(self.hook_hits.get((pat, occ), ()))
             if hits == 0:
-                raise BindError("ghost hook anchor %r (occurrence %s) not found in %s" % (pat, occ, c.qualname))
+                be = BindError("ghost hook anchor %r (occurrence %s) not found in %s" % (pat, occ, c.qualname))
+                ax = self.global_axioms()
+                for o in self.obls:
+                    o.hyps = ax + o.hyps
+                be.obls = [o for o in self.obls if o.kind != "canary"]      # what was generated before the anchor was missed: a FAILED one of these stands on its own
+                raise be
         ax = self.global_axioms()
         for o in self.obls:
             o.hyps = ax + o.hyps
